@@ -19,14 +19,17 @@ PLAN_N3 = {
     'perop': ['NQ', 'SRQ8a', 'SRQ16', 'DRQ8c'],
     'io': ['none', 'both8'], 'io_on': ('shipped',),
 }
+FILES5 = ['default_a8w8', 'default_a16w8', 'default_af32w8float',
+          'default_af32w4float', 'dynamic_wi8_afp32']
 PLAN_SMALL_QUICK = {
-    'shipped': True, 'uniform': ['SRQ8s', 'WO8a'],
-    'perop': ['NQ', 'SRQ8a', 'SRQ16', 'DRQ8c', 'WO8c', 'FP16'],
+    'shipped': FILES5, 'uniform': ['SRQ8s', 'WO8a'],
+    'perop': ['NQ', 'SRQ8a', 'SRQ16', 'DRQ8c', 'WO8c'],
     'io': ['none', 'both8', 'out8', 'in8', 'both16'],
     'io_on': ('uniform',),
 }
 PLAN_N3_QUICK = {
-    'shipped': True, 'uniform': [],
+    'shipped': ['default_a8w8', 'default_a16w8', 'dynamic_wi8_afp32'],
+    'uniform': [],
     'perop': ['NQ', 'SRQ8a'],
     'io': ['none'], 'io_on': ('shipped',),
 }
@@ -68,8 +71,9 @@ def blk_cases():
         yield c
 
 
-PLAN_SIG = {'shipped': True, 'uniform': [], 'perop': ['NQ', 'SRQ8a'],
-            'io': ['none', 'out8'], 'io_on': ('shipped',)}
+PLAN_SIG = {'shipped': ['default_a8w8'], 'uniform': ['SRQ8s'],
+            'perop': ['NQ', 'SRQ8a'], 'io': ['none', 'out8'],
+            'io_on': ('shipped',)}
 PLANS['sig'] = PLAN_SIG
 
 
@@ -82,7 +86,7 @@ PLANS['multi'] = PLAN_MULTI
 MULTI_TYPES = eg.TTOPO + ['CONV_2D', 'EMBEDDING_LOOKUP', 'SOFTMAX']
 
 
-def cases(tier, sigrev=False, blk=True):
+def cases(tier, sigrev=False, blk=True, n4=True):
   if blk:
     yield from blk_cases()
   for n in ((4, 5) if tier == 'quick' else (4, 5, 6)):
@@ -90,11 +94,10 @@ def cases(tier, sigrev=False, blk=True):
       yield {'ir': g, 'rp': 'chain'}
   # four-operator DAGs over two tiny alphabets (diamonds, tensors with three
   # consumers, joins): uniform recipes only, to bound the cost
-  if tier == 'quick':
-    for types in (['FULLY_CONNECTED', 'ADD', 'TANH'],
-                  ['FULLY_CONNECTED', 'CONCATENATION', 'ABS']):
-      yield from universe.graph_cases([(4, types, 'first', 'none')],
-                                      {'rp': 'n4u'})
+  if tier == 'quick' and n4:
+    yield from universe.graph_cases(
+        [(4, ['FULLY_CONNECTED', 'ADD', 'TANH'], 'first', 'none')],
+        {'rp': 'n4u'})
   # stars: one tensor with 3-4 consumers that each ask for a different
   # quantized form (three or four ops inserted behind the same tensor)
   star_types = [('FULLY_CONNECTED', 'bias'), ('TANH', ''), ('ADD', 'tc')]
@@ -116,7 +119,7 @@ def cases(tier, sigrev=False, blk=True):
 def plan(tier, seed):
   return {
       'cases': cases(tier),
-      'budget_s': 240 if tier == 'quick' else 3000,
+      'budget_s': 285 if tier == 'quick' else 3000,
       'chunk': 16,
       'rule': ('E1: every complete graph history (AddOp*/Export) within the '
                'bounds x every recipe of the plan x calibration [x_mix] is '
